@@ -181,12 +181,20 @@ static void res_bits(const char *v, size_t clz, size_t ctz) {
     } while (0)
 
 
+/* 32-bit operands reach the helpers the way they do in callers that narrow a 64-bit quantity: in a register whose upper
+ * half still holds whatever the wider value had there (the C value is the low half only; an inline-assembly variant that
+ * looks at the whole register sees the rest) */
+static volatile uint64_t vh_dirty_hi = 0xDEADBEEF00000000ull;
 static void do_arith(const char *op, const char *ty, uint64_t a, uint64_t b) {
+    if (!strcmp(ty, "u32")) {
+        a = (a & 0xFFFFFFFFull) | vh_dirty_hi;
+        b = (b & 0xFFFFFFFFull) | (vh_dirty_hi >> 1 << 1);
+    }
     vh_begin("Arith");
     vh_str("op", op);
     vh_str("ty", ty);
-    vh_wide("a", a);
-    vh_wide("b", b);
+    vh_wide("a", !strcmp(ty, "u32") ? (a & 0xFFFFFFFFull) : a);
+    vh_wide("b", !strcmp(ty, "u32") ? (b & 0xFFFFFFFFull) : b);
     vh_arr_begin("res");
     int is_add = !strcmp(op, "add"), is_mul = !strcmp(op, "mul");
     if (!strcmp(ty, "u64")) {
